@@ -1,5 +1,6 @@
 import Ktm.Rpc
 import Ktm.Codec
+import Ktm.Proto
 /-! # C16 — the chief/worker RPC layer is transparent: same requests, same search
 
 What the layer adds to an oracle is (a) a codec — every request and response crosses as a protocol-buffer
@@ -7,13 +8,48 @@ message — and (b) the chief's bookkeeping of client ids with its exit conditio
 servicer is the same oracle (C01–C12 apply to it unchanged), so "same requests, same search" reduces to the
 codec being lossless and order-restoring. Modelled: typed values (`Codec.Val`: the `oneof` of int / float /
 string / bool), the space decoder (`Rpc.decodeSpace`: entries regrouped by type, then reordered parents-first),
-`exit_chief`. Single-precision rounding of scores and metric values and the gRPC transport are outside the
-model (exercised by the suite through real protobuf bytes). -/
+`exit_chief`, and — `Ktm/Proto.lean` — the messages themselves: `to_proto` / `from_proto` of the five kinds of entries,
+conditions, values, metric histories, score and trial, as canonical message trees that the suite compares field by
+field with the real protobuf objects. Single-precision rounding is a parameter `r32` of the model (idempotent); the
+gRPC transport is outside the model (exercised by the suite through real protobuf bytes). -/
 namespace Props.C16
 open Rpc Reorder
 
 /-- values keep their type through the message (`oneof` of int / float / string / bool) -/
 theorem value_not_retyped (v : Codec.Val) : Codec.Val.fromJ v.toJ = some v := Codec.Val.roundtrip v
+
+/-- **an entry survives the encoding with nothing lost, added or retyped**: all five kinds, every field, conditions
+included; `step = None` travels as 0 and comes back as `None`; the effective default travels, so the decoded entry
+carries it explicitly (`Proto.norm`, idempotent, same effective default) -/
+theorem entry_survives (h : Codec.HP) (hw : Proto.WF h) : Proto.hpFromP (Proto.hpP h) = some (Proto.norm h) :=
+  Proto.hp_roundtrip h hw
+
+theorem entry_default_unchanged (k : Codec.Kind) : Proto.effDefault (Proto.normKind k) = Proto.effDefault k :=
+  Proto.effDefault_norm k
+
+/-- … and a second trip changes nothing more -/
+theorem entry_second_trip (h : Codec.HP) (hw : Proto.WF h) (hw' : Proto.WF (Proto.norm h)) :
+    (Proto.hpFromP (Proto.hpP h)).bind (fun h' => Proto.hpFromP (Proto.hpP h')) = some (Proto.norm h) :=
+  Proto.hp_roundtrip_twice h hw hw'
+
+/-- **values are neither lost, added nor retyped** (the `map<string, Value>` of a trial's hyperparameters) -/
+theorem values_survive (vs : List (String × Codec.Val)) : Proto.valuesFromP (Proto.valuesP vs) = some vs :=
+  Proto.values_roundtrip vs
+
+/-- **the grouping of the space by type is a permutation** — nothing lost, nothing added; the order is restored by the
+next theorem -/
+theorem grouped_space_is_a_permutation (sp : List Codec.HP) : (Proto.decodedOrder sp).Perm sp :=
+  Proto.decodedOrder_perm sp
+
+/-- **a trial survives up to single precision**: id, status and values exactly; each metric history keeps its direction
+and steps, every value rounded once (`r32`); the score likewise; the message has no field (known finding F19) -/
+theorem trial_survives (r32 : String → String) (t : Proto.PTrial) :
+    Proto.trialFromP (Proto.trialP r32 t) = some { t with metrics := t.metrics.map (fun p => (p.1, Proto.roundHist r32 p.2)),
+                                                          score := t.score.map (fun p => (r32 p.1, p.2)), message := none } :=
+  Proto.trial_roundtrip r32 t
+
+theorem single_precision_once (r32 : String → String) (hr : ∀ t, r32 (r32 t) = r32 t) (h : Proto.PHist) :
+    Proto.roundHist r32 (Proto.roundHist r32 h) = Proto.roundHist r32 h := Proto.roundHist_idem r32 hr h
 
 /-- **the decoded search space loses nothing, adds nothing and lists every parent ahead of its conditional
 children**: for ANY regrouping of a parents-first space (in particular the proto's grouping by type) the decoder
